@@ -260,3 +260,37 @@ Lemma former_sema_schedule_completes :
                  (s_init 1 [[SAcq]; [SRel; SAcq]]) in
   map s_done (s_ths s) = [1; 2]%nat /\ s_val s = 0 /\ s_waitq s = [].
 Proof. vm_compute. auto. Qed.
+
+(* ---------- the table of sync/atomic lowerings ---------- *)
+Lemma lowering_all_seq_cst o w : snd (atomic_lowering o w) = OSeqCst.
+Proof. reflexivity. Qed.
+
+Lemma api_keys_complete o w : api_has o w = true -> In (o, w) api_keys.
+Proof. destruct o, w; cbn; intros H; try discriminate; tauto. Qed.
+
+(* what lowering_ok accepts: at least one atomic instruction, each of them the
+   table's instruction (or, for And/Or, its compare-exchange expansion) on the right
+   width (for pointers possibly the pointer-sized integer) with only seq_cst orderings *)
+Lemma lowering_ok_sound pw o w ins : lowering_ok pw (o, w, ins) = true ->
+  ins <> [] /\
+  forall i w' ords, In (i, w', ords) ins ->
+    (i = fst (atomic_lowering o w) \/ expanded_form (fst (atomic_lowering o w)) = Some i) /\
+    (w' = w \/ (w = WPtr /\ w' = pw)) /\ ords <> [] /\ forall x, In x ords -> x = OSeqCst.
+Proof.
+  unfold lowering_ok. destruct (atomic_lowering o w) as [i0 ord0] eqn:E.
+  assert (ord0 = OSeqCst) as -> by (now inversion E).
+  destruct ins as [|x ins]; [discriminate|]. intros H. split; [discriminate|].
+  intros i w' ords Hin. rewrite forallb_forall in H. specialize (H _ Hin). cbn beta iota in H.
+  apply andb_true_iff in H as [H H3]. apply andb_true_iff in H as [H1 H2].
+  repeat split.
+  - cbn [fst]. unfold instr_ok in H1. apply orb_true_iff in H1 as [H1|H1].
+    + left. destruct i, i0; cbn in H1; congruence.
+    + right. destruct (expanded_form i0) as [j|]; [|discriminate]. f_equal.
+      destruct i, j; cbn in H1; congruence.
+  - unfold width_ok in H2. apply orb_true_iff in H2 as [H2|H2].
+    + left. destruct w', w; cbn in H2; congruence.
+    + right. destruct w; try discriminate. split; auto. destruct w', pw; cbn in H2; congruence.
+  - destruct ords; discriminate.
+  - destruct ords as [|y ords]; [discriminate|]. rewrite forallb_forall in H3.
+    intros z Hz. specialize (H3 _ Hz). destruct z; cbn in H3; congruence.
+Qed.
